@@ -60,6 +60,14 @@ CLAIMED.update({
             "DESIGN.md §4 C14"),
 })
 
+CLAIMED.update({
+    "C05": ("must-pass-through ordering + guard dominance + who-may-call + interface-implementation enumeration over go/ssa (core, util, cmd/mrjob, cmd/mrp)",
+            "Crash-point enumeration is not static; decided instead are the ordering and ownership rules that make a crash at any point recoverable: durable-before-announced in the job monitor and in runJob, reset only of failed/orphaned work (never Complete), fresh uniquifier per attempt and stale notifications ignored, "
+            "lock life-cycle and signal shutdown order, balanced critical sections that no HandleSignal enters and that enclose the multi-file updates.",
+            "Not decided: equality of final outputs with an uninterrupted run, behaviour at each individual crash prefix, PID reuse. A lock leak on a non-signal error path of instantiatePipeline is outside the property's wording (handled signals) and reported as information in DESIGN.md.",
+            "DESIGN.md §4 C05"),
+})
+
 NOT_APPLICABLE = {
     "C01": "Equality of delivered argument values with the denotation of binding expressions quantifies over run-time JSON values and fork matching for all programs; no clause is a fact about the shape of the code, so any static rule would be a proxy, not a necessary condition.",
     "C13": "Materialisation of files under outs/ and the rewritten _outs are file-system effects and hand-assembled JSON values; the only structural candidate (bracket pairing of the JSON writers) does not imply validity and is exercised by the existing golden tests.",
